@@ -38,6 +38,13 @@ def handleLine (hs : List (String × Handler)) (line : String) : String :=
       | some h =>
         let inp := (j.getObjVal? "in").toOption.getD Json.null
         let impl := (j.getObjVal? "impl").toOption.getD Json.null
+        -- the harness's watchdog: the real code did not answer within the ceiling. Like a panic this is an outcome
+        -- no property here allows (every property presupposes that the operation completes); it is judged without
+        -- consulting the stream's handler
+        if (impl.getObjVal? "hang").toOption.isSome then
+          (Json.mkObj [("model", Json.null), ("agree", false), ("spec", false), ("nontrivial", true),
+                       ("tag", "impl-hang")]).compress
+        else
         match h inp impl with
         | .error e => errLine s!"{s}: {e}"
         | .ok v => v.compress
